@@ -278,7 +278,29 @@ impl VersionManager {
                         entries.push(ManifestOperation::CreateTable(entry))
                     }
                     EpochOp::DropTable(entry) => {
-                        dropped_tables.push(entry.table_id.table_id);
+                        // Retire everything the table holds in the latest version. The caller
+                        // could only list the RowSets of a version it pinned earlier, and an
+                        // INSERT may have committed since.
+                        let table_id = entry.table_id;
+                        let rowsets = snapshot.get_rowsets_of(table_id.table_id).cloned();
+                        for rowset_id in rowsets.unwrap_or_default() {
+                            let dvs = snapshot.get_dvs_of(table_id.table_id, rowset_id).cloned();
+                            for dv_id in dvs.unwrap_or_default() {
+                                snapshot.delete_dv(table_id.table_id, rowset_id, dv_id);
+                                entries.push(ManifestOperation::DeleteDV(DeleteDVEntry {
+                                    table_id,
+                                    dv_id,
+                                    rowset_id,
+                                }));
+                            }
+                            rowset_deletion_to_apply.push((table_id.table_id, rowset_id));
+                            snapshot.delete_rowset(table_id.table_id, rowset_id);
+                            entries.push(ManifestOperation::DeleteRowSet(DeleteRowsetEntry {
+                                table_id,
+                                rowset_id,
+                            }));
+                        }
+                        dropped_tables.push(table_id.table_id);
                         entries.push(ManifestOperation::DropTable(entry))
                     }
 
